@@ -90,7 +90,10 @@ def decode(x):
     """Case JSON -> YAML-level data (dates)."""
     if isinstance(x, dict):
         if set(x) == {"__date__"} and isinstance(x["__date__"], str) and len(x["__date__"]) == 10:
-            return datetime.date.fromisoformat(x["__date__"])
+            try:
+                return datetime.date.fromisoformat(x["__date__"])
+            except ValueError:
+                pass
         return {k: decode(v) for k, v in x.items()}
     if isinstance(x, list):
         return [decode(v) for v in x]
